@@ -2485,11 +2485,18 @@ class SelectsRows(ReturnsRows):
                     # giving us a clue when to use anon_label instead
                     expr_label = c._expression_label
                     if expr_label is None:
-                        repeated = c._anon_name_label in names
+                        dupe_name = c._anon_name_label in names
+                        # only the same expression under the same name is a
+                        # repeat; a different expression that merely shares
+                        # the name (e.g. two CAST() of one column) gets a
+                        # dedupe label but keeps its result map targets
+                        repeated = dupe_name and hash(
+                            names[c._anon_name_label]
+                        ) == hash(c)
                         names[c._anon_name_label] = c
                         effective_name = required_label_name = None
 
-                        if repeated:
+                        if dupe_name:
                             # here, "required_label_name" is sent as
                             # "None" and "fallback_label_name" is sent.
                             if table_qualified:
